@@ -375,7 +375,9 @@ def strategies():
         typ = draw(st.sampled_from(POINTWISE))
         prec = draw(prec_s)
         prec2 = draw(st.one_of(st.just(0.), prec_s)) if typ in ("RelativeAndAbsolute", "Mixed") else None
-        mode = draw(st.sampled_from(["self", "identical", "good", "good", "mixed", "mixed", "mixed", "lengths"]))
+        mode = draw(st.sampled_from(["self", "identical", "good", "exact", "exact", "mixed", "mixed", "mixed", "lengths"]))
+        if mode == "exact":  # dyadic values: b +- prec is exact, the pair sits exactly on the Absolute threshold
+            prec = draw(st.integers(1, 2 ** 16).map(lambda m: m / 2. ** 12))
         n = draw(st.integers(1, 12 if mode != "lengths" else 6))
         sign = draw(st.sampled_from(["any", "any", "negative", "positive"]))
         rowcls = ROWCLS if draw(st.integers(0, 2)) == 0 else ROWCLS[:10]
@@ -385,9 +387,11 @@ def strategies():
                 cls = "identical"
             elif mode == "good":
                 cls = draw(st.sampled_from(["identical", "within", "at", "ulp", "zero_both"]))
+            elif mode == "exact":
+                cls = draw(st.sampled_from(["identical", "within", "at", "at"]))
             else:
                 cls = draw(st.sampled_from(rowcls))
-            b = draw(anyval)
+            b = draw(dyadic if mode == "exact" else anyval)
             if sign == "negative":
                 b = -abs(b)
             elif sign == "positive":
@@ -459,7 +463,8 @@ def strategies():
                 c["a"] = [fmt(x + prec * 1e-3) for x in b]
             else:
                 big = (max(abs(x) for x in b) + 1) * (1 + 20 * prec) * 2
-                c["a"] = [fmt(x + big * draw(st.sampled_from([-1., 1.]))) for x in b]
+                sg = -1. if cls == "far_negative" else draw(st.sampled_from([-1., 1.]))
+                c["a"] = [fmt(x + big * sg) for x in b]
             return c
         if cls in ("self", "same_grid"):
             c["ta"], c["a"] = c["tb"], c["b"]
